@@ -359,6 +359,16 @@ def w_cli(ctx, wid, seed, examples):
         if not m or m.group(2) != want:
             ctx.violations.append(dict(campaign='cli', why='displayed txid %r is not the double-SHA256 of the stripped encoding %s' % (m.group(2) if m else None, want), case=dict(full=enc.hex()), refails=3))
             return
+        # the amounts of the field dump: every output value as encoded (a decimal number of coins with eight fractional digits, the sign in front)
+        shown = re.findall(r'CTxOut\(nValue=(-?[0-9]+\.[-0-9]+),', err)
+        wantv = [('-' if o['value'] < 0 else '') + '%d.%08d' % (abs(o['value']) // 10 ** 8, abs(o['value']) % 10 ** 8) for o in t.vout]
+        if shown[:len(wantv)] != wantv:
+            bad = next((i for i in range(min(len(shown), len(wantv))) if shown[i] != wantv[i]), min(len(shown), len(wantv)))
+            ctx.violations.append(dict(campaign='cli', why='the field dump shows the amount of output %d as %r, the encoded value is %s' % (bad, shown[bad] if bad < len(shown) else None, wantv[bad] if bad < len(wantv) else None),
+                                       case=dict(full=enc.hex()), observed=shown[:6], expected=wantv[:6], refails=3))
+            return
+        if any(o['value'] < 0 for o in t.vout):
+            ctx.count('cli:negative-amount-displayed')
         # a truncated --tx must be rejected with a diagnostic, non-interactively
         r = cli.run(cli.binpath('btcdeb'), ['--tx=' + enc[:-1].hex()], stdin=b'0x51\n')
         if r.abnormal or r.rc != 1 or not r.err.strip():
@@ -369,7 +379,7 @@ def w_cli(ctx, wid, seed, examples):
 def run(tier, t0):
     W = core.WORKERS
     if tier == 'quick':
-        nv, npf, nc, na, ncli = 600, 12, 500, 300, 6
+        nv, npf, nc, na, ncli = 600, 12, 500, 300, 14
     else:
         nv, npf, nc, na, ncli = 30000, 400, 30000, 10000, 150
     tasks = [(w_valid, dict(examples=nv)) for _ in range(W)] + [(w_prefix, dict(examples=npf)) for _ in range(W // 2)] + [(w_corrupt, dict(examples=nc)) for _ in range(W)] + \
